@@ -49,6 +49,8 @@ pub mod render;
 pub mod surface;
 pub mod terminal;
 mod unix;
+#[cfg(feature = "verif-hooks")]
+pub mod verif;
 pub mod view;
 
 pub use error::Error;
